@@ -21,7 +21,14 @@ pub enum Beh {
     Silent,
     /// answer get_peers after `delay_ms`, naming `names` fresh closer nodes (a chain continues
     /// `depth` more levels)
-    Answer { delay_ms: u16, names: u8, depth: u8 },
+    Answer {
+        delay_ms: u16,
+        names: u8,
+        depth: u8,
+        /// additionally name the (already asked) contacts
+        #[serde(default)]
+        also_known: bool,
+    },
     Error { delay_ms: u16 },
     /// answer twice
     Duplicate { delay_ms: u16, second_ms: u16 },
@@ -55,7 +62,7 @@ fn beh() -> impl Strategy<Value = Beh> {
     let delay = prop_oneof![3 => 0u16..400, 2 => 400u16..1480, 3 => 1480u16..1520, 2 => 1520u16..3000, 1 => Just(1499u16), 1 => Just(1500u16), 1 => Just(1501u16)];
     prop_oneof![
         2 => Just(Beh::Silent),
-        5 => (delay.clone(), 0u8..=3, 0u8..=25).prop_map(|(delay_ms, names, depth)| Beh::Answer { delay_ms, names, depth }),
+        5 => (delay.clone(), 0u8..=3, 0u8..=25, prop::bool::weighted(0.3)).prop_map(|(delay_ms, names, depth, also_known)| Beh::Answer { delay_ms, names, depth, also_known }),
         1 => delay.clone().prop_map(|delay_ms| Beh::Error { delay_ms }),
         1 => (delay.clone(), 0u16..2000).prop_map(|(delay_ms, second_ms)| Beh::Duplicate { delay_ms, second_ms }),
     ]
@@ -177,6 +184,7 @@ impl Stage for Ends {
                 }
                 (0..contacts.len()).map(|i| depth_of(&eps, i)).max().unwrap_or(0)
             };
+            let n_contacts = contacts.len();
             let all = Arc::new(eps);
             for i in 0..all.len() {
                 let all2 = all.clone();
@@ -189,7 +197,11 @@ impl Stage for Ends {
                         // bootstrap / refresh traffic is always answered at once: contacts become good
                         KQuery::Ping { .. } | KQuery::FindNode { .. } | KQuery::Announce { .. } => vec![Out::now(from, &plain)],
                         KQuery::GetPeers { .. } => {
-                            let named: Vec<(Id, SocketAddr)> = me.children.iter().map(|c| (all2[*c].id, all2[*c].addr)).collect();
+                            let mut named: Vec<(Id, SocketAddr)> = me.children.iter().map(|c| (all2[*c].id, all2[*c].addr)).collect();
+                            if matches!(me.beh, Beh::Answer { also_known: true, .. }) {
+                                // the contacts (all asked in the first rounds), without this node itself
+                                named.extend(all2.iter().take(n_contacts).filter(|e| e.addr != me.addr).map(|e| (e.id, e.addr)));
+                            }
                             let (nodes, nodes6) = node_lists(&named);
                             let answer = resp(&m.tid, KResp { id: me.id.to_vec(), token: Some(vec![i as u8, 1, 2]), values: vec![marker(&me.addr)], nodes, nodes6 });
                             match &me.beh {
@@ -304,7 +316,7 @@ impl Stage for Ends {
         })
     }
     fn rule(&self) -> String {
-        "one real node bootstrapped against 0..8 (20 %: 10..14, so that no re-bootstrap happens and the 6 s refresh tick fires) scripted contacts, then, 0..13 s later, a search; each contact and each node it names behaves per script for get_peers: silent, answer after 0..3 s (clustered around 1.5 s: 1480..1520, exactly 1499/1500/1501 ms), KRPC error, duplicate answers; answers name 0..3 fresh ever closer nodes in chains up to 25 deep (<= ~120 endpoints); optionally 0.1..40 % (or all) of the search's own datagrams fail to send; plus the degenerate cases: no good node, and a node whose runtime has been dropped. Oracle (virtual time, eps = 100 ms): close <= first query + 1.5 s x distinct nodes told about + 3 s; nobody answers => close at first query + 3 s; no good node / dead node => closes at once, nothing sent; without send failures: no unanswered query younger than 1.5 s at close, and every first answer arriving < 1.4 s after its query has its values in the stream. Non-trivial: a timeout and an accepted answer in one search, or an answer within 10 ms of the deadline, or a chain >= 3".into()
+        "one real node bootstrapped against 0..8 (20 %: 10..14, so that no re-bootstrap happens and the 6 s refresh tick fires) scripted contacts, then, 0..13 s later, a search; each contact and each node it names behaves per script for get_peers: silent, answer after 0..3 s (clustered around 1.5 s: 1480..1520, exactly 1499/1500/1501 ms), KRPC error, duplicate answers; answers name 0..3 fresh ever closer nodes in chains up to 25 deep and, in 30 % of the cases, the already asked contacts as well (<= ~120 endpoints); optionally 0.1..40 % (or all) of the search's own datagrams fail to send; plus the degenerate cases: no good node, and a node whose runtime has been dropped. Oracle (virtual time, eps = 100 ms): close <= first query + 1.5 s x distinct nodes told about + 3 s; nobody answers => close at first query + 3 s; no good node / dead node => closes at once, nothing sent; without send failures: no unanswered query younger than 1.5 s at close, and every first answer arriving < 1.4 s after its query has its values in the stream. Non-trivial: a timeout and an accepted answer in one search, or an answer within 10 ms of the deadline, or a chain >= 3".into()
     }
     fn sample(&self, c: &Case) -> serde_json::Value {
         serde_json::json!({"contacts": c.contacts.iter().map(|b| format!("{b:?}")).collect::<Vec<_>>(), "chain": c.chain.iter().map(|b| format!("{b:?}")).collect::<Vec<_>>(), "send_fail_permille": c.send_fail_permille, "degenerate": c.degenerate})
